@@ -12,7 +12,7 @@ TInit == l = 1 /\ bad = <<>> /\ flat = <<>>
 
 StmtEv ==
   /\ l <= Len(Trace) /\ Trace[l].ev = "Stmt"
-  /\ LET e == Trace[l]  a == Align(e)  b == Bound(e)  v == ValuesBound(e)  m == NoValueInText(e) IN
+  /\ LET e == Trace[l]  a == Align(e) /\ e.panic = ""  b == Bound(e)  v == ValuesBound(e)  m == NoValueInText(e) IN
        bad' = IF a /\ b /\ m THEN bad
               ELSE Append(bad, [i |-> l, case |-> e.case, prop |-> "C01", align |-> a, bound |-> b, values |-> v, text |-> m])
   /\ l' = l + 1 /\ UNCHANGED flat
@@ -20,8 +20,9 @@ StmtEv ==
 DryEv ==
   /\ l <= Len(Trace) /\ Trace[l].ev = "Dry"
   /\ LET e == Trace[l]
-         silent == e.dry_stmts = 0 /\ e.tosql_calls = 0                  \* no prepare/exec/query; ToSQL: no driver call at all
-         same   == e.dry_sql = e.real_sql /\ e.dry_vals = e.real_vals     \* exactly the main statement of the real run
+         silent == e.dry_stmts = 0 /\ e.tosql_calls = 0 /\ e.panic = ""                  \* no prepare/exec/query; ToSQL: no driver call at all
+         same   == /\ e.dry_sql = e.real_sql /\ e.dry_vals = e.real_vals  \* exactly the main statement of the real run
+                   /\ e.scoped_tosql = e.scoped_real                      \* also when ToSQL starts from a handle carrying chained state
      IN bad' = IF silent /\ same THEN bad
                ELSE Append(bad, [i |-> l, case |-> e.case, prop |-> "C19", align |-> silent, bound |-> same, values |-> TRUE, text |-> TRUE])
   /\ l' = l + 1 /\ UNCHANGED flat
